@@ -182,12 +182,21 @@ func evalPath(node *jparse.PathNode, data reflect.Value, env *environment) (refl
 		return undefined, nil
 	}
 
+	// A path that starts with a variable - however many predicates
+	// and sort operators are applied to it - is evaluated once, not
+	// once per member of an array context.
 	var isVar bool
-	switch step0 := node.Steps[0].(type) {
-	case (*jparse.VariableNode):
-		isVar = true
-	case (*jparse.PredicateNode):
-		_, isVar = step0.Expr.(*jparse.VariableNode)
+	for step0 := node.Steps[0]; step0 != nil && !isVar; {
+		switch n := step0.(type) {
+		case (*jparse.VariableNode):
+			isVar = true
+		case (*jparse.PredicateNode):
+			step0 = n.Expr
+		case (*jparse.SortNode):
+			step0 = n.Expr
+		default:
+			step0 = nil
+		}
 	}
 
 	output := jtypes.Resolve(data)
